@@ -679,6 +679,9 @@ def simplify_call(path, args, trait_path=None):
         return args[0]
     if len(args) == 1 and path in ("core::slice::<impl [T]>::first", "std::slice::<impl [T]>::first"):
         return ("call", path[:-len("first")] + "get", (args[0], ("const", "usize", 0)))      # `.first()` is `.get(0)`
+    if len(args) == 3 and path.split("::")[-1] == "map_or" and ("Option" in path or "Result" in path):
+        pre = path[:-len("map_or")]          # x.map_or(d, f) is x.map(f).unwrap_or(d)
+        return ("call", pre + "unwrap_or", (("call", pre + "map", (args[0], args[2])), args[1]))
     if tp == "tmelcrypt::Hashable::hash" and len(args) == 1:
         return ("call", "tmelcrypt::hash_single", (args[0],))
     if tp in TRANSPARENT_CALLS and len(args) == 1:
